@@ -48,7 +48,7 @@ Section Ring.
   (* numpy path: whatever order argsort returns (it is not stable for equal keys) *)
   Theorem sum_by_group_np_spec : forall order ks vs,
     Permutation order (seq 0 (length ks)) -> Sorted Z.le (permute 0 order ks) -> length vs = length ks ->
-    sbg_np zero add sub order ks vs = sbg_spec zero add ks vs.
+    sbg_np zero add order ks vs = sbg_spec zero add ks vs.
   Proof. exact (sbg_np_spec zero one add mul sub opp Rth). Qed.
 
   (* numba path: bucket accumulation *)
@@ -62,7 +62,7 @@ Section Ring.
   Theorem sum_by_group_spec : forall use_numba numba_installed order ks vs,
     Permutation order (seq 0 (length ks)) -> Sorted Z.le (permute 0 order ks) ->
     (forall k, In k ks -> 0 <= k) -> length vs = length ks ->
-    sbg zero add sub use_numba numba_installed order ks vs = sbg_spec zero add ks vs.
+    sbg zero add use_numba numba_installed order ks vs = sbg_spec zero add ks vs.
   Proof. exact (sbg_all_paths_spec zero one add mul sub opp Rth). Qed.
 End Ring.
 Print Assumptions sum_by_group_np_spec.
@@ -149,10 +149,10 @@ Example lookup_example :
 Proof. simpl. repeat split; try reflexivity. repeat constructor; simpl; intuition lia. Qed.
 
 Example sbg_example :
-  sbg 0 Z.add Z.sub true true (argsort [7; 3; 7; 0; 3]) [7; 3; 7; 0; 3] [1; 10; 100; 1000; 10000]
+  sbg 0 Z.add true true (argsort [7; 3; 7; 0; 3]) [7; 3; 7; 0; 3] [1; 10; 100; 1000; 10000]
     = ([0; 3; 7], [1000; 10010; 101])
   /\ bucket_cond [7; 3; 7; 0; 3] = true
-  /\ sbg 0 Z.add Z.sub true true (argsort [100007; 3; 100007]) [100007; 3; 100007] [1; 10; 100]
+  /\ sbg 0 Z.add true true (argsort [100007; 3; 100007]) [100007; 3; 100007] [1; 10; 100]
     = ([3; 100007], [10; 101])
   /\ bucket_cond [100007; 3; 100007] = false.
 Proof. vm_compute. repeat split. Qed.
